@@ -1017,10 +1017,17 @@ impl MdGen<'_> {
                 mk(format!("out {k}"), "plain", eq)
             };
         }
-        match rng.below(48) {
+        match rng.below(53) {
             // a bracketed number followed by blanks is text, not an exit code
             46 => mk(format!("[{}] ", k % 3), "bracket-ws", eq),
             47 => mk("[7]\t".into(), "bracket-ws", eq),
+            // .. and so is a signed one
+            48 => mk(format!("[-{}]", 1 + k % 3), "bracket-signed", eq),
+            49 => mk("[+2]".into(), "bracket-signed", eq),
+            // `>` that is not followed by a blank never continues the command, not even directly behind it
+            50 => mk(format!(">>> {k} + 1"), "gt-nospace", eq),
+            51 => mk(format!(">quoted{k}"), "gt-nospace", eq),
+            52 => mk(">".into(), "gt-nospace", eq),
             // a carriage return that is not part of the line ending is text of the line
             40 => mk(format!("loading 10%\rloading 100% {k}"), "cr-inside", eq),
             41 if crlf => mk(format!("done {k}\r"), "cr-end", eq),
@@ -2038,9 +2045,14 @@ pub fn gen_cram(rng: &mut Rng) -> CramDoc {
                 for _ in 0..nb {
                     comment(rng, &mut ls);
                     k += 1;
-                    let (text, class): (String, &str) = match rng.below(31) {
+                    let (text, class): (String, &str) = match rng.below(36) {
                         29 => (format!("[{}] ", k % 3), "bracket-ws"),
                         30 => ("[7]\t".into(), "bracket-ws"),
+                        31 => (format!("[-{}]", 1 + k % 3), "bracket-signed"),
+                        32 => ("[+2]".into(), "bracket-signed"),
+                        33 => (format!(">>> {k} + 1"), "gt-nospace"),
+                        34 => (format!(">quoted{k}"), "gt-nospace"),
+                        35 => (">".into(), "gt-nospace"),
                         26 => (format!("loading 10%\rloading 100% {k}"), "cr-inside"),
                         27 if crlf == u64::MAX => (format!("done {k}\r"), "cr-end"),
                         27 => (format!("\rstart {k}"), "cr-inside"),
